@@ -93,6 +93,8 @@ package forkexec
 //@   loop 6: invariant #int %fd forall k int :: 0 <= k && k < len(old(r.Files)) && old(r.Files[k]) == 18446744073709551615 ==> K.fdt[k] == 0
 //@   loop 6: invariant #int %fd forall k int :: 0 <= k && k < len(old(r.Files)) && old(r.Files[k]) != 18446744073709551615 ==> K.fdt[k] == old(K.fdt[r.Files[k]]) && !K.clo[k]
 //@   loop 6: invariant #int %fd forall j int :: j >= len(old(r.Files)) && K.fdt[j] != 0 ==> K.clo[j]
+//@   loop 6: invariant #int %rl forall k int :: 0 <= k && k <= rangeindex ==> K.rl_set[int(old(r.RLimits)[k].Res)]
+//@   callsite syscall.RawSyscall6 when trap == 302: assert @C08 #int %rl a1 == 0 && a2 == uintptr(old(r.RLimits)[rangeindex + 1].Res) && a3 != 0 && deref_as(ptr(a3), syscall.Rlimit).Cur == old(r.RLimits)[rangeindex + 1].Rlim.Cur && deref_as(ptr(a3), syscall.Rlimit).Max == old(r.RLimits)[rangeindex + 1].Rlim.Max && a4 == 0
 //@   loop 7: invariant #int -1 <= rangeindex && rangeindex < 50 && sync_files_ok()
 //@   loop 7: invariant #int %fd forall k int :: 0 <= k && k < len(old(r.Files)) && old(r.Files[k]) == 18446744073709551615 ==> K.fdt[k] == 0
 //@   loop 7: invariant #int %fd forall k int :: 0 <= k && k < len(old(r.Files)) && old(r.Files[k]) != 18446744073709551615 ==> K.fdt[k] == old(K.fdt[r.Files[k]]) && !K.clo[k]
